@@ -118,6 +118,7 @@ func (sm *pipelineStateMachine) completeStage(stageID string, err error) {
 		s.stage.Complete()
 	}
 	sm.mutex.Unlock()
+	verifGate("completeStage.unlocked")
 
 	if sm.pending.Dec() == 0 {
 		// check if all stages execute completed
